@@ -202,6 +202,19 @@ func (r *Ref) Commit(op Op, out Outcome) error {
 			am[a] = m
 			touched[a] = true
 		}
+		// the AccountMetadata request parameter is what was submitted: it counts even
+		// if the implementation forgot it in its result
+		for a, m := range op.AccMeta {
+			if am[a] == nil {
+				am[a] = map[string]string{}
+			}
+			for k, v := range m {
+				if _, set := am[a][k]; !set {
+					am[a][k] = v
+				}
+			}
+			touched[a] = true
+		}
 		var addrs []string
 		for a := range touched {
 			addrs = append(addrs, a)
